@@ -120,7 +120,7 @@ func Verif_C01_A7_VoteSurvivesCrash() {
 
 func c03D1(s vShape, k int, full bool) {
 	c01LogShape(&s, full)
-	s.ConcIdx = !vsym.Thorough()
+	s.ConcIdx = true // (a symbolic snapshot index triples the time per path: outside the claim in both tiers)
 	v := vMkRaft(s)
 	r := v.r
 	// the pre-state's persistent part is on storage (what an earlier Ready/persist round left there)
